@@ -420,3 +420,84 @@ End Stepping.
 Ltac got_step :=
   first [ rewrite seq_upd | rewrite seq_ret_with | rewrite seq_skip_l | rewrite seq_ret
         | rewrite seq_brk | rewrite seq_cont | rewrite upd_eq | rewrite ret_with_eq ].
+
+(* ------------------------------------------------------------------------------------------ *)
+(* 5. Additions for the fast block compressor (GenCompressBody.v)                             *)
+(* ------------------------------------------------------------------------------------------ *)
+(* Appended; nothing above this line changed.  See notes/translator3_report.md. *)
+
+(* [N]T{}: the zero value of an array of n elements (n written as a Z literal by the translator) *)
+Definition zeros (n : Z) : list Z := repeat 0 (Z.to_nat n).
+Lemma zlen_zeros n : 0 <= n -> zlen (zeros n) = n.
+Proof. intros; unfold zlen, zeros; rewrite repeat_length; lia. Qed.
+Lemma znth_zeros n i : znth (zeros n) i = 0.
+Proof.
+  unfold znth, zeros. generalize (Z.to_nat i) as k. induction (Z.to_nat n) as [|m IH]; intros [|k]; cbn; auto.
+Qed.
+
+(* math/bits.TrailingZeros64: the number of trailing zero bits of x; 64 for x = 0.
+   (x is a uint64 value: 0 <= x < 2^64, so the positive case is at most 63.) *)
+Fixpoint pos_ctz (p : positive) : Z :=
+  match p with xO q => Z.succ (pos_ctz q) | _ => 0 end.
+Definition ctz64 (x : Z) : Z := match x with Zpos p => pos_ctz p | _ => 64 end.
+
+Lemma pos_ctz_nonneg p : 0 <= pos_ctz p.
+Proof. induction p; cbn [pos_ctz]; lia. Qed.
+(* the defining property: 2^(ctz) divides x and the bit at that position is set *)
+Lemma pos_ctz_spec p : exists q, Zpos p = (2 * q + 1) * 2 ^ pos_ctz p /\ 0 <= q.
+Proof.
+  induction p as [p _|p [q [IH Hq]]|].
+  - exists (Zpos p). cbn [pos_ctz]. rewrite Z.pow_0_r. split; lia.
+  - exists q. cbn [pos_ctz]. rewrite Z.pow_succ_r by apply pos_ctz_nonneg.
+    split; [|assumption]. rewrite Pos2Z.inj_xO, IH. ring.
+  - exists 0. cbn [pos_ctz]. split; [reflexivity|lia].
+Qed.
+Lemma ctz64_spec x : 0 < x -> exists q, x = (2 * q + 1) * 2 ^ ctz64 x /\ 0 <= q.
+Proof. destruct x as [|p|p]; try lia. intros _. apply pos_ctz_spec. Qed.
+
+(* binary.LittleEndian.Uint64 starts with  _ = b[7] *)
+Definition sl_le64_ok {loc : Type} (x : slice loc) : bool := 8 <=? s_len x.
+Section Mem64.
+  Context {loc state : Type}.
+  Variable ld : loc -> state -> list Z.
+  Definition sl_le64 (x : slice loc) (s : state) : Z :=
+    sl_get ld x 0 s + 256 * sl_get ld x 1 s + 65536 * sl_get ld x 2 s + 16777216 * sl_get ld x 3 s
+    + 4294967296 * sl_get ld x 4 s + 1099511627776 * sl_get ld x 5 s
+    + 281474976710656 * sl_get ld x 6 s + 72057594037927936 * sl_get ld x 7 s.
+End Mem64.
+
+Section Control2.
+  Context {state : Type}.
+  Implicit Types (s : state) (k : @stmt state).
+
+  (* Forward  goto L  where L labels a statement at the top level of the function body.
+     The translator emits the statements from L to the end of the function as a definition of
+     their own, k; reaching L by falling through is  ... ;; k  and  goto L  is  jump k : run k and
+     then leave the function (k is the complete remaining continuation of the body, so whatever
+     encloses the goto — loops, ifs, switches — is abandoned, which is what Ret does). *)
+  Definition jump k : @stmt state :=
+    fun s => match k s with Fall s' => Ret s' | o => o end.
+
+  (* Tuple assignment  a[i], b[j] = x, y : operands and right-hand sides are evaluated first (in s),
+     then the stores happen left to right.  When a later store can panic for a reason of its own,
+     the panic happens after the earlier stores took effect: [part s] is the state then. *)
+  Definition guard_part (g : state -> bool) (part : state -> state) k : @stmt state :=
+    fun s => if g s then k s else Pan (part s).
+
+  Lemma jump_Fall k s s' : k s = Fall s' -> jump k s = Ret s'.
+  Proof. unfold jump; intros ->; reflexivity. Qed.
+  Lemma jump_Ret k s s' : k s = Ret s' -> jump k s = Ret s'.
+  Proof. unfold jump; intros ->; reflexivity. Qed.
+  Lemma jump_Pan k s s' : k s = Pan s' -> jump k s = Pan s'.
+  Proof. unfold jump; intros ->; reflexivity. Qed.
+  (* nothing after a goto is executed *)
+  Lemma seq_jump k k' s : seq (jump k) k' s = jump k s.
+  Proof. unfold seq, jump. destruct (k s); reflexivity. Qed.
+  Lemma guard_part_ok g part k s : g s = true -> guard_part g part k s = k s.
+  Proof. unfold guard_part; intros ->; reflexivity. Qed.
+  Lemma guard_part_fail g part k s : g s = false -> guard_part g part k s = Pan (part s).
+  Proof. unfold guard_part; intros ->; reflexivity. Qed.
+  Lemma seq_guard_part g part a k s :
+    seq (guard_part g part a) k s = if g s then seq a k s else Pan (part s).
+  Proof. unfold seq, guard_part. destruct (g s); reflexivity. Qed.
+End Control2.
